@@ -30,6 +30,9 @@ def check(run):
              'them through rounding')
     for cfg in configs(run, extra_quick=('full',)):
         F = run.facts(cfg)
+        # helpers this property stands on (rule sets owned by other properties, see common.deps)
+        from common import deps as _deps
+        _deps(run, F, 'isnone', 'accessors')
         ks = find_kernels(F)
         run.floor('C06', 'rolling entry points', len(ks), 38 if cfg == 'full' else 36)
         nidx = 0
@@ -70,6 +73,9 @@ def check(run):
                                              'DRV.iter'))
         if cfg == 'base':
             lag.check_lag(run, F, rules=('SEQ.causal',))
+    # every container the generic code can be instantiated with hands out its elements in logical order
+    from common import dep_backends as _dep_backends
+    _dep_backends(run)
     return run.finish(
         'other',
         'No look-ahead: remove/add kernels see only the driver-supplied elements '
